@@ -17,7 +17,7 @@ PROP_ID = 'C03'
 TECHNIQUE = ('runtime post-condition monitors: peaks recomputed from the monitored response series, exact-rational 6*dt knife edge, '
              'refinement search for the object API, defining sums for the energy spectra')
 RULE = ('cases = calls of pseudo_/true_response_spectra, the two energy spectra and AccSignal spectrum generation/reads on records '
-        'of 2..400 samples (14 shape classes, float64/float32/int64/list containers) x dt (nice, 1/k, log-uniform, dyadic) x period '
+        'of 2..400 samples (14 shape classes, float64/float32/int64/list containers; 4 % extreme scales 1e+-165..1e+-220, spectra only) x dt (nice, 1/k, log-uniform, dyadic) x period '
         'lists of 1..8 entries (5%: 31..256 entries at and around powers of two) with/without a leading 0, T/dt in [0.2,300] with a third in [4,8] and the exact values 6*dt, its '
         'float neighbours and dyadic pairs such as dt=0.25,T=1.5; integer-valued period containers; xi in {0,.05,.3,.9,U(0,1)}; '
         'min_dt_ratio in {1,2,4,8}; object histories (lazy read, explicit regeneration with other ratio/xi/periods, value changes); '
@@ -371,7 +371,7 @@ def draw_periods(rng, dt, many=False):
 
 def draw_case(rng):
     n = int(rng.choice([2, 3, 4, 5, 8])) if rng.random() < 0.12 else int(rng.integers(9, 401))
-    x, cls = gen.record(rng, n, wide=True)
+    x, cls = gen.record(rng, n, wide=True, extreme=True)
     r = rng.random()
     if r < 0.15:
         dt, T6 = DYADIC[int(rng.integers(len(DYADIC)))]
@@ -417,7 +417,12 @@ def run_shard(ctx):
         kind = int(rng.choice(5, p=[0.3, 0.2, 0.3, 0.1, 0.1]))
         cont, ck = gen.container(rng, x, kinds=('f64', 'f64', 'f64', 'f32', 'i64', 'list'))
         r = rng.random()
-        if r < 0.05:
+        if 'extreme-scale' in cls:
+            # spectra are linear in the record and stay normal doubles; the energy measures are squares and legitimately
+            # under/overflow at these scales, so the extreme class is driven through the spectra only
+            kind = int(rng.choice(3, p=[0.4, 0.25, 0.35]))
+            cont, ck = ([float(t) for t in x], 'list') if r < 0.3 else (np.array(x, dtype=float), 'f64')
+        elif r < 0.05:
             cont, ck = gen.narrow_int(rng, len(x))
         elif r < 0.12:
             cont, ck = gen.view_form(rng, np.array(x, dtype=float))
